@@ -100,13 +100,28 @@ func nativeRewrite(w *World, pkg string, tmp string) (map[string]string, error) 
 		if !changed {
 			continue
 		}
-		// drop imports that are no longer used
+		// drop imports that are no longer used (package names resolved through type info)
+		used := map[types.Object]bool{}
+		ast.Inspect(f, func(n ast.Node) bool {
+			if id, ok := n.(*ast.Ident); ok {
+				if pn, ok := info.Uses[id].(*types.PkgName); ok {
+					used[pn] = true
+				}
+			}
+			return true
+		})
 		for _, imp := range f.Imports {
 			path := strings.Trim(imp.Path.Value, `"`)
-			if imp.Name != nil && (imp.Name.Name == "_" || imp.Name.Name == ".") {
-				continue
+			var obj types.Object
+			if imp.Name != nil {
+				if imp.Name.Name == "_" || imp.Name.Name == "." {
+					continue
+				}
+				obj = info.Defs[imp.Name]
+			} else {
+				obj = info.Implicits[imp]
 			}
-			if !astutil.UsesImport(f, path) {
+			if obj != nil && !used[obj] {
 				if imp.Name != nil {
 					astutil.DeleteNamedImport(target.Fset, f, imp.Name.Name, path)
 				} else {
